@@ -5,6 +5,7 @@
 package dbconc
 
 import (
+	"context"
 	"fmt"
 	"sort"
 	"strings"
@@ -209,12 +210,13 @@ func (s *h) Threads() []func() {
 	return fs
 }
 
-func (s *h) Teardown(deadlocked bool) {
-	if deadlocked {
-		return
-	}
+// Finish runs as a managed thread after the committers and readers are done: Close needs the
+// background threads spawned during the scenario (e.g. the flush loop of a rotated WAL) to run.
+func (s *h) Finish() {
 	s.close = s.x.D.Close()
 }
+
+func (s *h) Teardown(deadlocked bool) {}
 
 // allowedStates returns, for every subset-prefix of every permutation of the batches, the state
 // and the set of batches it contains.
@@ -397,7 +399,237 @@ func scenarios(prop string, thorough bool) []d1x.Scenario {
 	return scenarios1(prop)
 }
 
+// ---------------------------------------------------------------------------------------------
+// C42: every unordered pair of API operations on two threads over a quiesced DB with two L0 files
+// and a non-empty memtable. Results must equal one of the two sequential orders.
+
+var pairOps = []string{"set", "get", "batch", "scan", "snapget", "metrics", "flush", "ingest", "compact", "excise", "checkpoint"}
+
+type pairH struct {
+	ops   [2]string
+	x     *hx.X
+	mem   *vfs.MemFS
+	res   [2]string
+	errs  [2]error
+	done  [2]bool
+	final string
+	ferr  error
+	close  error
+	ckst   string
+	closed bool
+}
+
+func (s *pairH) Setup() {
+	s.mem = vfs.NewMem()
+	x, err := hx.Open(s.mem, "db", hx.Config{Name: "pairs"})
+	if err != nil {
+		panic(err)
+	}
+	s.x = x
+	must := func(err error) {
+		if err != nil {
+			panic(err)
+		}
+	}
+	d := x.D
+	must(d.Set([]byte("a"), []byte("init"), pebble.NoSync))
+	must(d.Set([]byte("b"), []byte("init"), pebble.NoSync))
+	must(d.Flush())
+	must(d.Set([]byte("a"), []byte("init2"), pebble.NoSync))
+	must(d.Flush())
+	must(d.Set([]byte("c"), []byte("init"), pebble.NoSync))
+}
+
+func pairModel0() map[string]string {
+	return map[string]string{"a": "init2", "b": "init", "c": "init"}
+}
+
+func renderMap(m map[string]string) string {
+	ks := make([]string, 0, len(m))
+	for k := range m {
+		ks = append(ks, k)
+	}
+	sort.Strings(ks)
+	var b strings.Builder
+	for _, k := range ks {
+		fmt.Fprintf(&b, "%s=%s ", k, m[k])
+	}
+	return b.String()
+}
+
+// pairApplyModel returns the result the op reports when run on state m, and mutates m.
+func pairApplyModel(op string, who int, m map[string]string) string {
+	switch op {
+	case "set":
+		m["b"] = fmt.Sprintf("s%d", who)
+	case "batch":
+		m["a"], m["d"] = fmt.Sprintf("x%d", who), fmt.Sprintf("x%d", who)
+	case "get":
+		return "a=" + m["a"]
+	case "scan", "checkpoint":
+		return renderMap(m)
+	case "snapget":
+		return "b=" + m["b"]
+	case "ingest":
+		m["e"] = fmt.Sprintf("ing%d", who)
+	case "excise":
+		delete(m, "b")
+	}
+	return ""
+}
+
+func (s *pairH) run(who int) {
+	d := s.x.D
+	op := s.ops[who]
+	var err error
+	switch op {
+	case "set":
+		err = d.Set([]byte("b"), []byte(fmt.Sprintf("s%d", who)), pebble.NoSync)
+	case "batch":
+		b := d.NewBatch()
+		b.Set([]byte("a"), []byte(fmt.Sprintf("x%d", who)), nil)
+		b.Set([]byte("d"), []byte(fmt.Sprintf("x%d", who)), nil)
+		err = d.Apply(b, pebble.NoSync)
+		b.Close()
+	case "get":
+		v, c, e := d.Get([]byte("a"))
+		if e == nil {
+			s.res[who] = "a=" + string(v)
+			c.Close()
+		} else if e == pebble.ErrNotFound {
+			s.res[who] = "a="
+		}
+		if e != pebble.ErrNotFound {
+			err = e
+		}
+	case "scan":
+		r, e := scan(d, false)
+		s.res[who], err = render(r), e
+	case "snapget":
+		sn := d.NewSnapshot()
+		v, c, e := sn.Get([]byte("b"))
+		if e == nil {
+			s.res[who] = "b=" + string(v)
+			c.Close()
+		} else if e == pebble.ErrNotFound {
+			s.res[who] = "b="
+		} else {
+			err = e
+		}
+		sn.Close()
+	case "metrics":
+		_ = d.Metrics().String()
+	case "flush":
+		err = d.Flush()
+	case "compact":
+		err = d.Compact(context.Background(), []byte("a"), []byte("z"), false)
+	case "ingest":
+		var p string
+		p, err = s.x.BuildSST(hx.Op{K: "ingest", Sub: []hx.Op{{K: "set", Key: "e", Val: fmt.Sprintf("ing%d", who)}}}, fmt.Sprintf("t%d", who))
+		if err == nil {
+			err = d.Ingest(context.Background(), []string{p})
+		}
+	case "excise":
+		err = d.Excise(context.Background(), pebble.KeyRange{Start: []byte("b"), End: []byte("c")})
+	case "checkpoint":
+		err = d.Checkpoint(fmt.Sprintf("ck%d", who), pebble.WithFlushedWAL())
+	}
+	s.errs[who] = err
+	s.done[who] = true
+}
+
+func (s *pairH) Threads() []func() {
+	return []func(){func() { s.run(0) }, func() { s.run(1) }}
+}
+
+func (s *pairH) Finish() {
+	r, err := scan(s.x.D, false)
+	s.final, s.ferr = render(r), err
+	if err == nil {
+		s.ferr = s.x.D.CheckLevels(nil)
+	}
+	s.close = s.x.D.Close()
+	s.closed = true
+}
+
+func (s *pairH) Teardown(deadlocked bool) {
+	if deadlocked || !s.closed {
+		return
+	}
+	// checkpoints are judged by opening them
+	for who, op := range s.ops {
+		if op == "checkpoint" && s.errs[who] == nil && s.done[who] {
+			y, err := hx.Open(s.mem, fmt.Sprintf("ck%d", who), hx.Config{Name: "pairs"})
+			if err != nil {
+				s.errs[who] = fmt.Errorf("checkpoint does not open: %w", err)
+				continue
+			}
+			r, err := scan(y.D, false)
+			s.res[who] = render(r)
+			if err != nil {
+				s.errs[who] = err
+			}
+			y.D.Close()
+		}
+	}
+}
+
+func judgePair(hh vsched.Harness, x *vsched.Exec) (string, string, string) {
+	s := hh.(*pairH)
+	for who := 0; who < 2; who++ {
+		if !s.done[who] {
+			return "hang", "operation-did-not-return", s.ops[who]
+		}
+		if s.errs[who] != nil {
+			return "error", "operation-error", fmt.Sprintf("%s: %v", s.ops[who], s.errs[who])
+		}
+	}
+	if s.ferr != nil {
+		return "final", "final-read-or-checklevels", s.ferr.Error()
+	}
+	if s.close != nil {
+		return "close", "close-error", s.close.Error()
+	}
+	out := fmt.Sprintf("%s->[%s] %s->[%s] final{%s}", s.ops[0], s.res[0], s.ops[1], s.res[1], s.final)
+	var allowed []string
+	for _, order := range [][2]int{{0, 1}, {1, 0}} {
+		m := pairModel0()
+		var res [2]string
+		for _, who := range order {
+			res[who] = pairApplyModel(s.ops[who], who, m)
+		}
+		exp := fmt.Sprintf("%s->[%s] %s->[%s] final{%s}", s.ops[0], res[0], s.ops[1], res[1], renderMap(m))
+		if exp == out {
+			return out, "", ""
+		}
+		allowed = append(allowed, exp)
+	}
+	return out, "not-equivalent-to-a-sequential-order", fmt.Sprintf("observed %s; the two sequential orders give %q", out, allowed)
+}
+
+func pairScenarios() []d1x.Scenario {
+	heavy := map[string]bool{"flush": true, "compact": true, "ingest": true, "excise": true, "checkpoint": true}
+	var sc []d1x.Scenario
+	for i, a := range pairOps {
+		for _, b := range pairOps[i:] {
+			a, b := a, b
+			qb, tb := 1, 2
+			w := 1.0
+			if heavy[a] || heavy[b] {
+				qb, tb = 0, 1
+				w = 2
+			}
+			sc = append(sc, d1x.Scenario{Name: "pair-" + a + "+" + b, QuickBound: qb, ThoroughBound: tb, Weight: w, Judge: judgePair, MaxSteps: 400000,
+				New: func() vsched.Harness { return &pairH{ops: [2]string{a, b}} }})
+		}
+	}
+	return sc
+}
+
 func scenarios1(prop string) []d1x.Scenario {
+	if prop == "C42" {
+		return pairScenarios()
+	}
 	nowal := hx.Config{Name: "nowal", DisableWAL: true}
 	wal := hx.Config{Name: "wal"}
 	small := hx.Config{Name: "tinymem-nowal", DisableWAL: true, MemTableSize: 64 << 10}
